@@ -165,11 +165,30 @@ type histProp struct {
 	// exec runs the case; with generate=true it draws the operations (appending to c.Ops),
 	// otherwise it follows c.Ops.
 	exec func(c *Case, generate bool) (*Violation, *execStats)
+	// execRaw is the property's own exec once exec has been wrapped by execFresh
+	execRaw func(c *Case, generate bool) (*Violation, *execStats)
 }
 
 var minimisedSigs = map[string]bool{}
 
+// execFresh executes a case the way a fresh process would: package-level state of ygot's
+// runtime packages is re-initialised first (simulated process restart, see simrt.ResetGlobals),
+// so that nothing an earlier run of this worker left behind - a cache, a pool, a scratch
+// buffer - can take part, and a violation reproduces from its recorded history alone. The
+// garbage collector is held off while the case runs (and the process has one P): whether a
+// sync.Pool still holds what was put into it depends on both.
+func (h *histProp) execFresh(c *Case, generate bool) (*Violation, *execStats) {
+	simrt.ResetGlobals()
+	old := debug.SetGCPercent(-1)
+	defer debug.SetGCPercent(old)
+	return h.execRaw(c, generate)
+}
+
 func (h *histProp) Run(seed uint64, tier string) *Result {
+	if h.execRaw == nil {
+		h.execRaw = h.exec
+		h.exec = h.execFresh
+	}
 	c := h.header(seed, tier)
 	v, st := h.exec(c, true)
 	res := &Result{Seed: seed, Pkg: c.Pkg, Faults: st.Faults, Probes: st.Probes, Steps: st.Steps, LogHash: hashLines(st.Trace)}
@@ -216,6 +235,10 @@ func (h *histProp) Run(seed uint64, tier string) *Result {
 }
 
 func (h *histProp) Replay(raw json.RawMessage) *Result {
+	if h.execRaw == nil {
+		h.execRaw = h.exec
+		h.exec = h.execFresh
+	}
 	var c Case
 	if err := json.Unmarshal(raw, &c); err != nil {
 		return &Result{Internal: "bad case: " + err.Error()}
